@@ -624,18 +624,18 @@ PROPS = {
         'assumptions': ['the caller starts each search with an all-false visited vector and a rectangular matrix (read off the code, not verified)'],
     },
     'C09': {
-        'vx': ['U5'],
+        'vx': ['U5', 'U7'],
         'extra': [extra_u5_bounded('c09')],
         'witness': witness_u5('c09'),
         'technique': 'Verus postconditions on mechanically extracted fragments (R7) of the real array matchers over the real cddl::ast::Occur + identity lemma',
-        'level_text': 'Occurrence identities only: the statement that turns an occurrence indicator into (min, max) iteration bounds inside seq_match_entry - in the JSON and in the CBOR validator - is proved equal to one spec function occ_bounds over the REAL cddl::ast::Occur type, and a lemma shows ? = 0*1, * = 0* (= *), + = 1*, *m = 0*m on that spec; a token-level frame obligation shows the occurrence value is not read again after that statement, so the rest of the matcher depends on it only through (min, max). Operator identities (/, .and, .within, .eq/.ne, ranges) and prelude-name identities live inside the visitors and are not decided.',
+        'level_text': 'Occurrence identities only: the statement that turns an occurrence indicator into (min, max) iteration bounds inside seq_match_entry - in the JSON and in the CBOR validator - is proved equal to one spec function occ_bounds over the REAL cddl::ast::Occur type, and a lemma shows ? = 0*1, * = 0* (= *), + = 1*, *m = 0*m on that spec; a token-level frame obligation shows the occurrence value is not read again after that statement, so the rest of the matcher depends on it only through (min, max); the greedy loop that consumes (min, max) is itself under contract in both validators (unit U7, one iteration abstracted by a stub). Operator identities (/, .and, .within, .eq/.ne, ranges) and prelude-name identities live inside the visitors and are not decided.',
         'level_note': 'Trusted: Verus+Z3; rustc agreement between the fragment and the enclosing function (R7 wraps the statement in a generated fn, nothing inside changes). Unverified: the greedy loop and seq_match_entry_once, map-group occurrence handling (validate_repeating_member_count etc.), every other identity named in C09.',
         'design_ref': 'DESIGN.md 4 U5',
         'scope': 'occurrence -> (min,max) in seq_match_entry (json.rs, cbor.rs)',
         'assumptions': [],
     },
     'C04': {
-        'vx': ['U5'],
+        'vx': ['U5', 'U7'],
         'extra': [extra_u5_bounded('c04')],
         'witness': witness_u5('c04'),
         'technique': 'mirror lemma: the JSON and the CBOR copy of a duplicated pure helper meet the same Verus spec',
@@ -657,11 +657,11 @@ PROPS = {
         'assumptions': ['CBORValidator::new / validate are deterministic functions of (schema, Value, features) - not verified'],
     },
     'C05': {
-        'vx': ['U1', 'U3'],
+        'vx': ['U1', 'U3', 'U7'],
         'extra': [extra_c05_crash],
         'witness': witness_c05,
         'technique': 'Verus: allocation-size obligations injected at every allocation site found by token scan, decreases clauses, overflow / index / unwrap / library-precondition obligations on every function under contract',
-        'level_text': 'Partial: for the functions under contract - the seven CBOR decoder functions and the three parse-error range functions - Verus proves (a) every allocation whose size is a run-time value requests at most a constant (the "length in a CBOR head is never trusted for allocation" clause; sites re-discovered on every run), (b) termination of every loop and of the mutual recursion, (c) absence of arithmetic overflow, out-of-bounds indexing, failing unwrap and violated library preconditions (e.g. ciborium push() with a header already buffered, read_exact with a buffered header - both panic). Found and fixed: allocation of 2 TiB from 9b 00 00 00 10 00 00 00 00 (F3). NOT decided deductively: polynomial time, stack depth (recursion on nesting), the pest parser, the validators, Display. For the entry points as a whole only a bounded crash search runs (labelled bounded, not counted): 616 two-rule schemas x small documents through parse / checked parse / format / JSON and CBOR validation in subprocesses. It found F12 (.plus overflow, fixed), F13 (tag-1 epoch unwrap, fixed) and two defects recorded as known findings instance by instance: F9 (cyclic alias reached through a control operator, unwrap or generic overflows the stack: 1425 instances) and F19 (uriparse panics on some strings: 14 instances).',
+        'level_text': 'Partial: for the functions under contract - the eight CBOR decoder functions, the three parse-error range functions and the greedy occurrence loop of the array matcher in both validators (unit U7: terminates also for zero-width iterations such as [* ()], cursor stays inside the array, no counter overflow - with one iteration abstracted by a stub whose assumed contract is that the cursor never moves backwards or past the end) - Verus proves (a) every allocation whose size is a run-time value requests at most a constant (the "length in a CBOR head is never trusted for allocation" clause; sites re-discovered on every run), (b) termination of every loop and of the mutual recursion, (c) absence of arithmetic overflow, out-of-bounds indexing, failing unwrap and violated library preconditions (e.g. ciborium push() with a header already buffered, read_exact with a buffered header - both panic). Found and fixed: allocation of 2 TiB from 9b 00 00 00 10 00 00 00 00 (F3). NOT decided deductively: polynomial time, stack depth (recursion on nesting), the pest parser, the validators, Display. For the entry points as a whole only a bounded crash search runs (labelled bounded, not counted): 616 two-rule schemas x small documents through parse / checked parse / format / JSON and CBOR validation in subprocesses. It found F12 (.plus overflow, fixed), F13 (tag-1 epoch unwrap, fixed) and two defects recorded as known findings instance by instance: F9 (cyclic alias reached through a control operator, unwrap or generic overflows the stack: 1425 instances) and F19 (uriparse panics on some strings: 14 instances).',
         'level_note': 'Trusted: as for C11 and C15. Only functions under contract are covered; C05 as stated quantifies over every entry point, most of which are outside the verifiers reach (see DESIGN.md 5).',
         'design_ref': 'DESIGN.md 4 U1/U3',
         'scope': 'panic/abort/termination obligations of the functions under contract in U1 and U3',
